@@ -66,7 +66,8 @@ func (c *Ctx) mapInputs() ([][]byte, []*gen.Printer) {
 		case 1:
 			f.Package = "" // no package clause
 		case 2:
-			f.Imports = []string{`"fmt"`, `str "strings"`}
+			// (also packages goht imports itself, under another name)
+			f.Imports = []string{`"fmt"`, `str "strings"`, `ctx "context"`, `_ "io"`}
 			f.ImportGroup = true
 		case 3:
 			f.Imports = []string{`"fmt"`}
